@@ -221,19 +221,34 @@ NON_ACTIONS = [0, None, 'MOVE_FORWARD', 7]
 SIX = ('MOVE_FORWARD', 'MOVE_BACKWARD', 'MOVE_LEFT', 'MOVE_RIGHT', 'TURN_LEFT', 'TURN_RIGHT')
 
 
+_reject_envs = {}
+
+
+def reject_env(shape):
+    """a GridWorld with a restricted action space, stochastic dynamics AND a stochastic observation function"""
+    if shape not in _reject_envs:
+        env, _ = make_env(shape, dyn.CHAIN_FULL, actions=SIX)
+        e = copy.copy(env)
+        e._observation_function = OF.factory('stochastic_raytracing', area=Area(*OBS_AREA))
+        _reject_envs[shape] = e
+    return _reject_envs[shape]
+
+
 def judge_reject(s):
     shape = R.shape(s[0])
-    env, _ = make_env(shape, dyn.CHAIN_FULL, actions=SIX)
+    env = reject_env(shape)
     n = 0
     for bad in [Action.ACTUATE, Action.PICK_N_DROP] + NON_ACTIONS:
         n += 1
-        st = mkstate(s)
-        env.set_seed(5)
-        env._state = st
-        env._observation = None
-        before_rng = copy.deepcopy(env._rng.bit_generator.state)
         sig = {'part': 'reject', 'action': repr(bad)}
         for call in ('functional_step', 'step'):
+            st = mkstate(s)
+            env.set_seed(5)
+            env._state = st
+            env._observation = None
+            obs_before = env.observation  # the memoised observation of the current state (consumes randomness once)
+            d_before = sdesc(obs_before)
+            before_rng = copy.deepcopy(env._rng.bit_generator.state)
             try:
                 if call == 'functional_step':
                     env.functional_step(st, bad)
@@ -249,6 +264,9 @@ def judge_reject(s):
                 return n, f'rejected action {bad!r} changed the state', sig
             if env._rng.bit_generator.state != before_rng:
                 return n, f'rejected action {bad!r} consumed randomness', sig
+            obs_after = env.observation
+            if sdesc(obs_after) != d_before or env._rng.bit_generator.state != before_rng:
+                return n, f'rejected action {bad!r} ({call}) changed the current observation / consumed randomness on the next read', sig
     return n, None, {}
 
 
@@ -322,7 +340,7 @@ def _member_work(job):
                 continue
             s = (rows, y, x, h, NONE)
             for fn, kind in ((judge_member, 'member'), (judge_reject, 'reject')):
-                if kind == 'reject' and (R.nonfloor_count(rows) > 1 or h != 'F'):
+                if kind == 'reject' and (h != 'F' or (y, x) not in ((0, 0), (R.shape(rows)[0] - 1, R.shape(rows)[1] - 1))):
                     continue
                 k, msg, sig = fn(s)
                 n += k
@@ -397,6 +415,13 @@ def run(rep, tier, seed):
                 plan.append(dict(shape=sh, sigma='obj5', k=2, held='two', chains=[dyn.CHAIN_FULL], actions=R.ACTIONS, only_k=2))
     else:
         plan = dyn.standard_plan(tier, CHAINS_LO, CHAINS_HI, held_lo='small', held_hi='two', sigma_hi='reduced')
+        # every ordered pair of distinct built-in transition functions (composition order matters for closure)
+        pairs = [(a, b) for a in dyn.SINGLES for b in dyn.SINGLES if a != b]
+        for sh in U.SHAPES_SMALL:
+            if sh[0] * sh[1] <= 6:
+                plan.append(dict(shape=sh, sigma='full', k=1, held='two', chains=pairs, actions=R.ACTIONS))
+    for e in plan:
+        e['cost'] = 4  # relative cost of one case (job sizing)
     tot = dyn.run_universe(rep, plan, _worker, replay)
     shapes = U.SHAPES_SMALL if tier == 'quick' else U.SHAPES_MID
     jobs = [(sh, i, 8 if sh[0] * sh[1] >= 6 else 1) for sh in shapes for i in range(8 if sh[0] * sh[1] >= 6 else 1)]
@@ -424,7 +449,7 @@ def run(rep, tier, seed):
                                                                'teleport.7x7', 'keydoor.7x7', 'empty.8x8'], 150, 5000, 4
     else:
         names, init_limit, max_states, gcap = [n for n, _ in configs.all_configs()], 2000, 200000, None
-    rs, rt = dyn.run_reach(rep, names, init_limit, max_states, make_hooks, replay, 'closure', group_cap=gcap)
+    rs, rt = dyn.run_reach(rep, names, init_limit, max_states, make_hooks, replay, 'closure', group_cap=gcap, lineages=2 if tier == 'quick' else 3)
     rep.assume('compositions: each built-in transition function alone and the full chain; rewards = reduce_sum of all '
                'precondition-free built-ins (+ precondition-bearing ones where their precondition holds); termination = '
                'reduce_any and reduce_all of the built-ins; custom components out of scope')
